@@ -1,6 +1,7 @@
 import BrushVerif.Model.Pattern
 import BrushVerif.Spec.Glob
 import BrushVerif.Proofs.Pattern
+import BrushVerif.Gen.PatternTables
 /-!
 # C08 — glob, bracket and extglob patterns match exactly the strings bash matches
 
@@ -736,5 +737,74 @@ theorem globDir_complete (ext nc dotglob : Bool) (p : Str) (names : List Str) (n
 
 example : globDir false false false "*".toList ["b".toList, ".a".toList, "a".toList] = ["a".toList, "b".toList] := by
   decide +kernel
+
+/-! ## The character tables, regenerated from the source on every run
+
+`Gen/PatternTables.lean` is written by `tools/c08gen.py` from `pattern.rs`, `regex.rs` and
+`patterns.rs` each time the check runs.  The theorems below say that the hand-written predicates the
+translation theorems are stated over accept exactly the regenerated sets — for every character, and
+as sets (reordering the alternatives of a `matches!` does not disturb them). -/
+
+section Tables
+open BrushVerif.Gen.PatternTables
+
+private theorem mem_iff_of_all {L1 L2 : List Char} (h1 : L1.all (fun c => L2.contains c) = true)
+    (h2 : L2.all (fun c => L1.contains c) = true) (c : Char) : c ∈ L1 ↔ c ∈ L2 := by
+  rw [List.all_eq_true] at h1 h2
+  constructor
+  · intro h; simpa using h1 c h
+  · intro h; simpa using h2 c h
+
+/-- `needsEsc` is the source's `regex_char_needs_escaping` -/
+theorem needs_escaping_set_is_the_sources (c : Char) : needsEsc c = true ↔ c ∈ needsEscTable := by
+  unfold needsEsc
+  rw [decide_eq_true_iff]
+  exact mem_iff_of_all (by decide) (by decide) c
+
+/-- `isSpecial` is the source's `regex_char_is_special` -/
+theorem special_set_is_the_sources (c : Char) : isSpecial c = true ↔ c ∈ specialTable := by
+  unfold isSpecial
+  rw [decide_eq_true_iff]
+  exact mem_iff_of_all (by decide) (by decide) c
+
+/-- the characters `pattern_text` quotes in a literal piece are the special ones plus the source's
+extra list -/
+theorem quoting_set_is_the_sources (c : Char) :
+    needsQuoting c = true ↔ c ∈ specialTable ∨ c ∈ quotingExtraTable := by
+  have hq : (c = '!' ∨ c = '-' ∨ c = '@' ∨ c = ':') ↔ c ∈ quotingExtraTable :=
+    (show c ∈ ['!', '-', '@', ':'] ↔ _ from mem_iff_of_all (by decide) (by decide) c) |>.symm |>.symm
+      |> fun h => ⟨fun hc => h.mp (by simpa using hc), fun hc => by simpa using h.mpr hc⟩
+  unfold needsQuoting
+  simp only [Bool.or_eq_true, decide_eq_true_eq, special_set_is_the_sources]
+  constructor
+  · rintro ((((h | h) | h) | h) | h)
+    · exact .inl h
+    all_goals exact .inr (hq.mp (by simp [h]))
+  · rintro (h | h)
+    · exact .inl (.inl (.inl (.inl h)))
+    · rcases hq.mpr h with h | h | h | h
+      · exact .inl (.inl (.inl (.inr h)))
+      · exact .inl (.inl (.inr h))
+      · exact .inl (.inr h)
+      · exact .inr h
+
+/-- how a single bracket member is written into the regex class follows the source's rule
+`single_char_bracket_member`: an escaped member keeps its backslash iff it is ASCII punctuation
+outside the source's exception list; an unescaped one (other than a leading `]`, which the grammar
+handles by its own rule) gets a backslash iff it is in the source's list -/
+theorem bracket_member_escape_is_the_sources (esc : Bool) (c : Char) (hc : c ≠ ']') :
+    SM.render { esc := esc, c := c } =
+      if esc then (if isAsciiPunct c && !(decide (c ∈ keepBackslashExceptTable)) then ['\\', c] else [c])
+      else if c ∈ memberEscTable then ['\\', c] else [c] := by
+  cases esc
+  · by_cases h1 : c = '[' <;> by_cases h2 : c = '&' <;> by_cases h3 : c = '~' <;> by_cases h4 : c = '^' <;>
+      simp [SM.render, memberEscTable, h1, h2, h3, h4, hc]
+  · by_cases h1 : c = '<' <;> by_cases h2 : c = '>' <;>
+      simp [SM.render, keepBackslashExceptTable, h1, h2]
+
+example : needsEsc '-' = true ∧ isSpecial '-' = false ∧ needsQuoting '@' = true ∧
+    SM.render { esc := true, c := '<' } = ['<'] ∧ SM.render { esc := false, c := '~' } = ['\\', '~'] := by decide
+
+end Tables
 
 end BrushVerif.C08
